@@ -46,6 +46,13 @@ TEMPORAL = ["it", "iteration", "t", "time"]
 BUILTINS = ["gammadet", "Ktrace", "gammaup3", "Kup3", "A2", "Adown3", "gtt", "betamag", "s_RicciS",
             "gdet", "gdown4", "betadown3", "psi_bssnok", "kxx", "gxy", "Aup3", "nup4", "rho_n",
             "null_ray_exp_in"]
+# custom functions named like built-in keys (their values must be frozen inputs of the step) ...
+SHADOW = {"press": "fp", "rho0": "fr0", "eps": "fe", "alpha": "fal"}
+# ... and built-ins that read them
+DEP_POOL = ["press_n", "Stresstrace_n", "enthalpy", "Tdown4", "Ttrace", "rho_n", "Hamiltonian", "Momentumx",
+            "Momentumy", "Momentumz", "dtKtrace", "Stressdown3_n", "fluxup3_n", "Hamiltonian_Escale",
+            "angmomup3_n", "anisotropic_press_down3_n", "conserved_Sdown3", "conserved_D", "conserved_E",
+            "eps", "rho0", "press", "udown4", "hdown4", "gup4"]
 EST_BUILTIN = ["max", "min", "mean", "median", "sum", "std", "maxabs", "x0y0z0", "x1y0z1", "x1y1z1"]
 
 
@@ -64,6 +71,22 @@ def _fc(rel):
 
 def _fd(rel):
     return rel["alpha"] * rel.myfac + rel["gammadet"]
+
+
+def _fp(rel):          # a custom `press` (EOS-like): the built-in default is zeros
+    return 0.2 * rel["alpha"] ** 2 + 0.01 * rel["gammadet"]
+
+
+def _fr0(rel):         # a custom `rho0`
+    return 0.6 * rel["alpha"] + 0.05 * rel["gammadet"]
+
+
+def _fe(rel):          # a custom `eps`
+    return 0.1 * rel["gammadet"] + 0.02 * rel["alpha"]
+
+
+def _fal(rel):         # a custom `alpha` for tables without an `alpha` column (default: ones)
+    return 1.1 + 0.05 * rel["gammadet"]
 
 
 def _bad2(rel, extra):
@@ -92,6 +115,7 @@ def _bad2p(a, b):
 
 # tag -> (callable, valid)
 VF = {"fa": (_fa, True), "fb": (_fb, True), "fc": (_fc, True), "fd": (_fd, True),
+      "fp": (_fp, True), "fr0": (_fr0, True), "fe": (_fe, True), "fal": (_fal, True),
       "bad2": (_bad2, False), "badraise": (_badraise, False)}
 EF = {"ta": (_ta, True), "tb": (_tb, True), "badarr": (_badarr, False), "bad2p": (_bad2p, False)}
 
@@ -226,14 +250,60 @@ class Refs:
         self.pos = {j: p for p, j in enumerate(sc["order"])}
         self.cache = {}
 
-    def fresh(self, j):
+    def fresh(self, j, frozen=None):
+        """A fresh AurelCore holding the inputs of row j (and `frozen` values) as frozen
+        inputs; the periodic clean-up is disabled in the reference."""
         import aurel
-        rel = aurel.AurelCore(self.fd, verbose=False, **self.sc["kwargs"])
+        kw = dict(self.sc["kwargs"])
+        kw["clear_cache_every_nbr_calc"] = 10 ** 9
+        rel = aurel.AurelCore(self.fd, verbose=False, **kw)
         p = self.pos[j]
         for col in self.sc["cols"]:
             rel.data[col] = self.table[col][p]
+        for k, v in (frozen or {}).items():
+            rel.data[k] = v
         rel.freeze_data()
         return rel
+
+    def value(self, cid):
+        """The reference value of an identity string (None if it has none), e.g.
+        calc(press_n,row3|press=cust(fp,row3)): built-in of a fresh AurelCore holding the
+        inputs of row 3 and the listed custom values as frozen inputs."""
+        if cid in self.cache:
+            return self.cache[cid]
+        try:
+            v = self._value(cid)
+        except Exception:  # noqa
+            v = None
+        self.cache[cid] = v
+        return v
+
+    def _value(self, cid):
+        head, _, body = cid.partition("(")
+        if not body.endswith(")"):
+            return None
+        body = body[:-1]
+        a, rest = split_first(body, ",")
+        if head == "in":
+            return self.inp(a, int(rest[3:])) if rest.startswith("row") and rest[3:].isdigit() else None
+        if head in ("est", "estc"):
+            arr = self.value(rest)
+            return None if arr is None else self.est(head, a, arr)
+        if head in ("calc", "cust"):
+            rowpart, entries = split_first(rest, "|")
+            if not (rowpart.startswith("row") and rowpart[3:].isdigit()):
+                return None
+            frozen = {}
+            for ent in (split0(entries, ";") if entries else []):
+                k, _, vid = ent.partition("=")
+                val = self.value(vid)
+                if val is None:
+                    return None
+                frozen[k] = val
+            rel = self.fresh(int(rowpart[3:]), frozen)
+            with quiet():
+                return np.array(rel[a]) if head == "calc" else np.array(VF[a][0](rel))
+        return None
 
     def inp(self, col, j):
         return self.table[col][self.pos[j]]
@@ -256,6 +326,19 @@ class Refs:
         import aurel
         f = aurel.time.est_functions[e] if kind == "est" else EF[e][0]
         return f(np.ascontiguousarray(arr))
+
+
+def split_first(s, sep):
+    """Split at the first `sep` at parenthesis depth 0 -> (before, after or '')."""
+    depth = 0
+    for i, ch in enumerate(s):
+        if ch == "(":
+            depth += 1
+        elif ch == ")":
+            depth -= 1
+        elif ch == sep and depth == 0:
+            return s[:i], s[i + 1:]
+    return s, ""
 
 
 def same(a, b):
@@ -309,7 +392,7 @@ def all_refs(sc, refs):
     return out
 
 
-def canon_table(result, refd, prefer=None, stats=None):
+def canon_table(result, refd, prefer=None, stats=None, refs=None):
     """Canonical table [(col, [ids])] of a real result (dict of lists/arrays).
     prefer: {(col, i): id} — the id to report when several references are equal."""
     if isinstance(result, str):
@@ -321,9 +404,14 @@ def canon_table(result, refd, prefer=None, stats=None):
             cell = vals[i]
             want = (prefer or {}).get((col, i))
             hit = None
-            if want is not None and want in refd and same(cell, refd[want]):
+            wv = None
+            if want is not None:
+                wv = refd.get(want)
+                if wv is None and refs is not None:
+                    wv = refs.value(want)
+            if wv is not None and same(cell, wv):
                 hit = want
-                if stats is not None and same(cell, refd[want]) == 2:
+                if stats is not None and same(cell, wv) == 2:
                     stats["inexact"] = stats.get("inexact", 0) + 1
             else:
                 approx = None
@@ -620,7 +708,7 @@ def oracle_check(ctx, sc, refs, refd, real, modified, stats):
     if exp is None:
         return found
     prefer = {(c, i): cid for c, ids in exp.items() for i, cid in enumerate(ids)}
-    can = dict(canon_table(real, refd, prefer, stats))
+    can = dict(canon_table(real, refd, prefer, stats, refs))
     tk, tags = stable_order(sc)
     n = len(tags)
     for c in sc["cols"]:
@@ -768,7 +856,7 @@ def correspondence(ctx, scs, label):
             d = "impl %s, model %s" % (can, mod)
         else:
             prefer = {(c, i): cid for c, ids in model for i, cid in enumerate(ids)}
-            can = canon_table(real, refd, prefer, stats)
+            can = canon_table(real, refd, prefer, stats, r)
             ok = can == model
             d = ""
             if not ok:
